@@ -83,6 +83,13 @@ type Out struct {
 	Packages          []string   `json:"packages"`
 	Privileges        []StmtPriv `json:"privileges"`
 	RwRules           []RwRule   `json:"rw_rules"`
+	// (*UserInfo).AuthorizeUnrestricted as a boolean formula over the account's flags, prefix notation:
+	// admin | rw | true | false | or(a,b) | and(a,b) | not(a) | ? (not understood)
+	Unrestricted string `json:"unrestricted"`
+	// (*Handler).checkAuthorization: does EVERY error of QueryAuthorizer.AuthorizeQuery leave the function with a non-nil
+	// error? (the `if err := ..AuthorizeQuery(..); err != nil {` body has an unconditional `return <non-nil>` of its own)
+	CheckAuthzReturnsAll bool `json:"check_authz_returns_all_errors"`
+	CheckAuthzFound      bool `json:"check_authz_found"`
 }
 
 // one arm of the statement type switch of (*UserInfo).AuthorizeQueryForRwUser, in a canonical rendering of what it does
@@ -378,6 +385,8 @@ func main() {
 	scanCreds(repo, httpd)
 	scanPrivileges(repo)
 	scanRwRules(repo)
+	scanUnrestricted(repo)
+	scanCheckAuthorization(httpd)
 	if out.Problems == nil {
 		out.Problems = []string{}
 	}
@@ -1692,4 +1701,136 @@ func scanRwRules(repo string) {
 	if !found {
 		problem("authorizer.go: AuthorizeQueryForRwUser not found")
 	}
+}
+
+// scanUnrestricted: the body of (*UserInfo).AuthorizeUnrestricted - the only administrator test of serveSysCtrl, checkAuth
+// (/backup/*), requireAdmin (tsdb, repository, logstream, recall, stream tasks) and getAuthorizer - as a formula
+func scanUnrestricted(repo string) {
+	out.Unrestricted = "?"
+	file := filepath.Join(repo, metaSuffix, "userinfo.go")
+	pfset := token.NewFileSet()
+	f, err := parser.ParseFile(pfset, file, nil, 0)
+	if err != nil {
+		problem("userinfo.go: %v", err)
+		return
+	}
+	for _, d := range f.Decls {
+		fd, ok := d.(*ast.FuncDecl)
+		if !ok || fd.Name.Name != "AuthorizeUnrestricted" || fd.Recv == nil || fd.Body == nil || len(fd.Recv.List) != 1 {
+			continue
+		}
+		recv := ""
+		if len(fd.Recv.List[0].Names) == 1 {
+			recv = fd.Recv.List[0].Names[0].Name
+		}
+		var form func(e ast.Expr) string
+		form = func(e ast.Expr) string {
+			switch x := e.(type) {
+			case *ast.ParenExpr:
+				return form(x.X)
+			case *ast.Ident:
+				if x.Name == "true" || x.Name == "false" {
+					return x.Name
+				}
+			case *ast.SelectorExpr:
+				if id, ok := x.X.(*ast.Ident); ok && id.Name == recv {
+					switch x.Sel.Name {
+					case "Admin":
+						return "admin"
+					case "Rwuser":
+						return "rw"
+					}
+				}
+			case *ast.UnaryExpr:
+				if x.Op == token.NOT {
+					return "not(" + form(x.X) + ")"
+				}
+			case *ast.BinaryExpr:
+				switch x.Op {
+				case token.LOR:
+					return "or(" + form(x.X) + "," + form(x.Y) + ")"
+				case token.LAND:
+					return "and(" + form(x.X) + "," + form(x.Y) + ")"
+				case token.EQL:
+					if id, ok := x.Y.(*ast.Ident); ok && id.Name == "true" {
+						return form(x.X)
+					}
+					if id, ok := x.Y.(*ast.Ident); ok && id.Name == "false" {
+						return "not(" + form(x.X) + ")"
+					}
+				}
+			}
+			return "?"
+		}
+		var body func(list []ast.Stmt) string
+		body = func(list []ast.Stmt) string {
+			if len(list) == 0 {
+				return "?"
+			}
+			switch x := list[0].(type) {
+			case *ast.ReturnStmt:
+				if len(x.Results) == 1 {
+					return form(x.Results[0])
+				}
+			case *ast.IfStmt:
+				// if c { return a }; rest   ==   (c and a) or (not c and rest)
+				if x.Init == nil && x.Else == nil {
+					c, a, r := form(x.Cond), body(x.Body.List), body(list[1:])
+					return "or(and(" + c + "," + a + "),and(not(" + c + ")," + r + "))"
+				}
+			}
+			return "?"
+		}
+		out.Unrestricted = body(fd.Body.List)
+		return
+	}
+	problem("userinfo.go: AuthorizeUnrestricted not found")
+}
+
+// scanCheckAuthorization: (*Handler).checkAuthorization must hand on every error of the query authorizer
+func scanCheckAuthorization(p *packages.Package) {
+	fd, _ := findMethod(p, "Handler", "checkAuthorization")
+	if fd == nil || fd.Body == nil {
+		return
+	}
+	out.CheckAuthzFound = true
+	all := true
+	seen := false
+	ast.Inspect(fd.Body, func(n ast.Node) bool {
+		is, ok := n.(*ast.IfStmt)
+		if !ok {
+			return true
+		}
+		callsAuthz := false
+		check := func(m ast.Node) {
+			if m == nil {
+				return
+			}
+			ast.Inspect(m, func(c ast.Node) bool {
+				if call, ok := c.(*ast.CallExpr); ok {
+					if sel, ok := call.Fun.(*ast.SelectorExpr); ok && sel.Sel.Name == "AuthorizeQuery" {
+						callsAuthz = true
+					}
+				}
+				return true
+			})
+		}
+		check(is.Init)
+		check(is.Cond)
+		if !callsAuthz {
+			return true
+		}
+		seen = true
+		ok2 := false
+		for _, st := range is.Body.List {
+			if rs, ok := st.(*ast.ReturnStmt); ok && len(rs.Results) == 1 && render(rs.Results[0]) != "nil" {
+				ok2 = true
+			}
+		}
+		if !ok2 {
+			all = false
+		}
+		return false
+	})
+	out.CheckAuthzReturnsAll = seen && all
 }
